@@ -315,6 +315,7 @@ type l1World struct {
 	addr  string
 	u     *upf
 	b     *bess
+	fdp   *l1FaultDP
 	sink  *l1Metrics
 	conns map[int]*PFCPConn
 	ncs   map[int]*l1NetConn
@@ -323,6 +324,21 @@ type l1World struct {
 }
 
 var l1Epoch = time.Date(2022, 1, 2, 3, 4, 5, 0, time.UTC)
+
+// l1FaultDP is the datapath the agent sees: the real bess plug-in, except that the next `fail` calls of
+// SendMsgToUPF are answered "request rejected" without reaching it (a datapath that refuses a write).
+type l1FaultDP struct {
+	datapath
+	fail int
+}
+
+func (d *l1FaultDP) SendMsgToUPF(method upfMsgType, all PacketForwardingRules, newRules PacketForwardingRules) uint8 {
+	if d.fail > 0 {
+		d.fail--
+		return ie.CauseRequestRejected
+	}
+	return d.datapath.SendMsgToUPF(method, all, newRules)
+}
 
 func l1NewWorld(cfg l1Cfg) (*l1World, error) {
 	w := &l1World{cfg: cfg, intern: &l1Intern{ids: map[string]int{}}}
@@ -376,7 +392,8 @@ func (w *l1World) boot() error {
 	}
 	b := &bess{}
 	*bessIP = w.addr
-	u.datapath = b
+	w.fdp = &l1FaultDP{datapath: b}
+	u.datapath = w.fdp
 	// timing only: a loaded machine must not turn a slow RPC into a lost datapath write
 	Timeout = 3 * time.Second
 	before := w.srv.clears()
@@ -764,6 +781,9 @@ func (w *l1World) doEvent(ev l1Event) (obs map[string]interface{}) {
 			if c, ok := w.conns[ev.Conn]; ok {
 				c.Shutdown()
 			}
+		case "dp_fail":
+			// the datapath refuses the next ev.Conn writes
+			w.fdp.fail = ev.Conn
 		case "dp_down":
 			// the BESS daemon goes away (crash / restart of the datapath): its gRPC server stops
 			w.gs.Stop()
